@@ -121,6 +121,45 @@ def replay_states(states, seed):
     return n, nontriv, fails[:40], sample, skipped
 
 
+def _vt_worker(seed, n):
+    import views_trace as VT
+    return VT.record_batch(seed, n)
+
+
+def trace_views(ck, nfiles):
+    """code -> spec: random merchants and views files through the real code, validated by Trace_Views."""
+    import copy
+    from props.totals_common import run_trace_sharded
+    outs = par.pmap(_vt_worker, [ck.seed * 6007 + 13 * s + 2 for s in range(16)], extra=(max(1, nfiles // 16),))
+    by_id, skipped = {}, 0
+    for rs, sk in outs:
+        skipped += sk
+        for r in rs:
+            by_id[r['id']] = r
+    recs = [{k: v for k, v in r.items() if not k.startswith('_')} for r in by_id.values()]
+    base = next((r for r in recs if r['obs'][0]['members']), None)
+    if base is None:
+        raise core.Machinery('views trace recorder: no view lists any merchant')
+    tam = copy.deepcopy(base)
+    tam['id'] = 'TAMPER'
+    tam['obs'][0]['members'] = tam['obs'][0]['members'][1:]          # a listed merchant dropped from the logged listing
+    rej, outs = run_trace_sharded(ck, 'Trace_Views', recs + [tam], 'Trace_Views', 'Trace_Views.cfg', shards=8, keep_stdout=True)
+    if 'TAMPER' not in rej and base['id'] not in rej:
+        # (dropping a merchant the spec has no opinion on would be accepted: then the tamper proves nothing - require an opinion)
+        raise core.Machinery('Trace_Views accepted a tampered record: the binding is vacuous')
+    rej.pop('TAMPER', None)
+    judged = sum(v[-1][1] for v in (tlc.extract_tagged(o, 'JUDGED') for o in outs) if v)
+    ck.trace(len(recs))
+    ck.case(n=len(recs))
+    ck.case(('trace_views_judged', judged), nontrivial=judged > 0, n=0)
+    ck.extra['trace_views'] = {'files': len(recs), 'unrepresentable_skipped': skipped, 'view_merchant_pairs_judged': judged, 'rejected': len(rej)}
+    for rid, clauses in sorted(rej.items()):
+        r = by_id[rid]
+        ck.violation({'site': 'classify_by_sections', 'clause': sorted(clauses), 'via': 'trace_views'},
+                     {'views_text': r['_text'], 'merchants': r['_merchants'], 'observed_members': r['_members'], 'record': {k: v for k, v in r.items() if not k.startswith('_')}},
+                     'recorded view listing disagrees with Views!MemberOf (%s): views file %r lists %s' % (sorted(clauses), r['_text'], r['_members']))
+
+
 def independence_case(item):
     """Metamorphic on the real code: every order and every sub-file of a 3-view file gives each view the same members."""
     from tally.analyzer import analyze_transactions
@@ -189,6 +228,7 @@ def run(ck):
         ck.trace(n)
         for sig, case, what in fails:
             ck.violation(sig, case, what)
+    trace_views(ck, 4800 if quick else 48000)
     ck.extra['rule'] = ('every views file with one view whose filter is one of %d atomic tests (incl. %d that cannot be evaluated), its negation, '
                         'or its conjunction / disjunction with one of %d core tests, x 4 global and 4 view-local variable settings; two-view '
                         'files over the core; all against 9 merchants through analyze_transactions + classify_by_sections + '
